@@ -254,6 +254,8 @@ def run_random(MSM, spec):
             drive(MSM, seq, tau_arg, noncorr, n, check_reverse=True, obj=shared)
         if it % 10 == 0:  # the all-tau front end
             taus = np.array(sorted({1, 2, max(1, tau)}))
+            if it % 20 == 0:
+                taus = np.array([max(1, tau), 1, 2, 1, max(1, tau // 2)])      # lags in the caller's order, one of them twice
             m = MSM(np.array(seq, dtype=float), total_num_cells=n)
             if n > 3000:
                 continue
